@@ -5,9 +5,9 @@ PROP = dict(
         search_rounds=2, search_env=dict(VERIF_CASES=3000),
         workloads=[
             dict(name="accrual-rates", go_test="TestC18", runner="C18",
-                 env=dict(quick=dict(VERIF_CASES=1500), thorough=dict(VERIF_CASES=30000))),
+                 env=dict(quick=dict(VERIF_CASES=1500), thorough=dict(VERIF_CASES=15000))),
             dict(name="accrual-sites", go_test="TestC18Sites", runner="C18-sites",
-                 env=dict(quick=dict(VERIF_CASES=500), thorough=dict(VERIF_CASES=10000))),
+                 env=dict(quick=dict(VERIF_CASES=500), thorough=dict(VERIF_CASES=5000))),
         ],
         rule="case = a group of 1-3 calls of one REAL function on neighbouring / consecutive inputs: CalculateLendReward, CalculateBorrowInterest, "
              "CalculateStableInterest, Rewardskeeper.CalculationOfRewards (float path; x, y, math.Pow(x,y) recorded as IEEE bit patterns), or (kind R) one set of "
